@@ -1,28 +1,48 @@
 // Native replay for C04: runs the REAL MutexImpl code of the working tree (the TU is compiled into this driver)
-// on small reachable states and checks the same postconditions as specs/C04/spec.c.
+// on every reachable state of <= 4 operations by 2 actors and checks it, step by step, against the abstract view
+// that specs/C04/spec.c states as contracts (owner, acquisition count, FIFO of (issuer, depth)):
+//   try_lock succeeds iff free or recursively mine, and counts one acquisition; unlock releases at the n-th unlock and
+//   hands over to the head of the FIFO with its depth; lock_async takes a free mutex, relocks recursively, bumps the
+//   depth of an already queued recursive request, or queues at the tail.
+// argv[1] = label of the failed obligation (only used for reporting). exit 1 = a concrete failing sequence was found.
 #include "src/kernel/activity/MutexImpl.cpp"
 #include <cstdio>
 #include <cstring>
+#include <deque>
 #include <vector>
 using namespace simgrid::kernel;
 using activity::MutexImpl;
 
-static int count_of(MutexImpl& m) { return m.is_recursive_ ? m.recursive_depth : (m.owner_ != nullptr ? 1 : 0); }
-static bool wf(MutexImpl& m)
-{
-  if (m.owner_ == nullptr && not m.ongoing_acquisitions_.empty())
-    return false;
-  if (m.is_recursive_ && ((m.owner_ == nullptr) != (m.recursive_depth == 0) || m.recursive_depth < 0))
-    return false;
-  for (auto const& a : m.ongoing_acquisitions_)
-    if (a->granted_ || a->recursive_depth_ < 1 || (m.is_recursive_ && a->issuer_ == m.owner_.get()))
-      return false;
-  return true;
-}
+struct Model {
+  bool rec;
+  int owner = -1;
+  int count = 0; // acquisitions the owner still has to release
+  std::deque<std::pair<int, int>> q; // (issuer, depth)
+  bool try_lock(int who)
+  {
+    if (owner == who && rec) { count++; return true; }
+    if (owner != -1) return false;
+    owner = who; count = 1; return true;
+  }
+  void lock_async(int who)
+  {
+    if (owner == -1) { owner = who; count = 1; return; }
+    if (rec && owner == who) { count++; return; }
+    if (rec)
+      for (auto& e : q)
+        if (e.first == who) { e.second++; return; }
+    q.emplace_back(who, 1);
+  }
+  void unlock()
+  {
+    if (rec && count > 1) { count--; return; }
+    if (q.empty()) { owner = -1; count = 0; return; }
+    owner = q.front().first; count = rec ? q.front().second : 1; q.pop_front();
+  }
+};
 
-// ops: 0 = lock_async, 1 = try_lock, 2 = unlock ; actor index 0..1
-struct Op { int kind; int who; };
 static const char* opname[] = {"lock_async", "try_lock", "unlock"};
+struct Op { int kind; int who; };
 
 int main(int argc, char** argv)
 {
@@ -30,76 +50,53 @@ int main(int argc, char** argv)
   actor::ActorImpl* act[2] = {new actor::ActorImpl("a0", nullptr, -1), new actor::ActorImpl("a1", nullptr, -1)};
   std::vector<activity::MutexAcquisitionImplPtr> keep;
   int failures = 0;
-  // every prefix of length <= 3 over {lock_async,try_lock,unlock(by owner only)} x 2 actors, then the op under test
   for (int rec = 0; rec < 2; rec++)
-    for (int len = 0; len <= 3; len++) {
+    for (int len = 1; len <= 4; len++) {
       int total = 1;
-      for (int i = 0; i < len; i++)
-        total *= 6;
+      for (int i = 0; i < len; i++) total *= 6;
       for (int code = 0; code < total; code++) {
         MutexImpl* m = new MutexImpl(rec);
+        Model mod; mod.rec = rec;
         std::vector<Op> seq;
         int c = code;
-        bool ok = true;
-        for (int i = 0; i < len && ok; i++) {
+        const char* why = nullptr;
+        for (int i = 0; i < len && !why; i++) {
           Op o{c % 3, (c / 3) % 2};
           c /= 6;
-          if (o.kind == 2 && m->owner_.get() != act[o.who]) { ok = false; break; } // unlock by non-owner aborts: skip
+          if (o.kind == 2 && mod.owner != o.who) break; // unlock by a non-owner aborts: not part of a valid history
           seq.push_back(o);
-          if (o.kind == 0) keep.push_back(m->lock_async(act[o.who]));
-          else if (o.kind == 1) m->try_lock(act[o.who]);
+          bool r = true, er = true;
+          if (o.kind == 0) { keep.push_back(m->lock_async(act[o.who])); mod.lock_async(o.who); }
+          else if (o.kind == 1) { r = m->try_lock(act[o.who]); er = mod.try_lock(o.who); }
+          else { m->unlock(act[o.who]); mod.unlock(); }
+          int owner = m->owner_ == nullptr ? -1 : (m->owner_.get() == act[0] ? 0 : 1);
+          int count = rec ? m->recursive_depth : (m->owner_ != nullptr ? 1 : 0);
+          if (r != er) why = "result of try_lock";
+          else if (owner != mod.owner) why = "owner";
+          else if (count != mod.count) why = "acquisition count of the owner";
+          else if (m->ongoing_acquisitions_.size() != mod.q.size()) why = "length of the FIFO";
           else {
-            // unlock hands over to queued acquisitions and looks at owner_->waiting_synchros_ (empty here)
-            m->unlock(act[o.who]);
-          }
-        }
-        if (!ok) continue;
-        if (strstr(label, "try_lock")) {
-          for (int who = 0; who < 2; who++) {
-            // work on the state reached by seq; redo the prefix for each `who`
-            MutexImpl* n = new MutexImpl(rec);
-            for (auto o : seq) {
-              if (o.kind == 0) keep.push_back(n->lock_async(act[o.who]));
-              else if (o.kind == 1) n->try_lock(act[o.who]);
-              else n->unlock(act[o.who]);
+            size_t k = 0;
+            for (auto const& a : m->ongoing_acquisitions_) {
+              int iss = a->issuer_ == act[0] ? 0 : 1;
+              if (iss != mod.q[k].first) why = "FIFO order";
+              else if (rec && a->recursive_depth_ != mod.q[k].second) why = "depth of a queued acquisition";
+              else if (a->granted_) why = "queued acquisition granted";
+              k++;
             }
-            auto* old_owner = n->owner_.get();
-            int old_count   = count_of(*n);
-            int old_depth   = n->recursive_depth;
-            bool pre_wf     = wf(*n);
-            bool r          = n->try_lock(act[who]);
-            bool expect     = old_owner == nullptr || (old_owner == act[who] && rec);
-            bool bad        = false;
-            const char* why = "";
-            if (r != expect) { bad = true; why = "trylock_iff_free_or_mine"; }
-            else if (r && !(n->owner_.get() == act[who] && count_of(*n) == old_count + 1)) { bad = true; why = "trylock_success_counts_one"; }
-            else if (!r && !(n->owner_.get() == old_owner && n->recursive_depth == old_depth)) { bad = true; why = "trylock_failure_no_change"; }
-            else if (pre_wf && !wf(*n)) { bad = true; why = "trylock_keeps_wf"; }
-            if (bad && pre_wf) {
-              failures++;
-              if (failures <= 3) {
-                printf("FAIL %s: recursive=%d prefix=[", why, rec);
-                for (auto o : seq) printf("%s(a%d) ", opname[o.kind], o.who);
-                printf("] then try_lock(a%d) -> %d; owner=%s depth=%d count=%d (old count %d)\n", who, r,
-                       n->owner_ == nullptr ? "none" : (n->owner_.get() == act[0] ? "a0" : "a1"), n->recursive_depth,
-                       count_of(*n), old_count);
-              }
+          }
+          if (why) {
+            failures++;
+            if (failures <= 3) {
+              printf("FAIL (%s differs from the abstract view) recursive=%d after [", why, rec);
+              for (auto s : seq) printf("%s(a%d) ", opname[s.kind], s.who);
+              printf("]: real owner=%d count=%d queue=%zu ; expected owner=%d count=%d queue=%zu\n", owner, count,
+                     m->ongoing_acquisitions_.size(), mod.owner, mod.count, mod.q.size());
             }
           }
         }
       }
     }
-  // the end-to-end consequence of a broken count: a recursive mutex acquired twice is freed by one unlock
-  if (strstr(label, "try_lock")) {
-    MutexImpl* m = new MutexImpl(true);
-    m->try_lock(act[0]);
-    m->try_lock(act[0]);
-    m->unlock(act[0]);
-    if (m->owner_ == nullptr) {
-      printf("FAIL recursion: try_lock,try_lock,unlock leaves the mutex free (acquired twice, released once)\n");
-      failures++;
-    }
-  }
-  printf("native replay: %d failing inputs\n", failures);
+  printf("native replay (obligation %s): %d failing histories\n", label, failures);
   return failures ? 1 : 0;
 }
